@@ -104,7 +104,11 @@ package main
 //@   trusted lazily decodes and memoises the entry for a path; as a function of (l, path) it is a lookup
 
 //@ func (seedFlag).String
-//@   inline
+//@   property C12 C06 C13
+//@   assigns nothing
+//@   deterministic @function-of-the-seed: in f.bytes
+//@   ensures @the-whole-seed-is-handed-on: r0 == base64.RawStdEncoding.EncodeToString(f.bytes)
+//@ end
 
 //@ func typeutil_hash
 //@   pure
@@ -149,13 +153,26 @@ package main
 //@   deterministic @unseeded-name-from-action-id: when len(flagSeed.bytes) == 0 in flagSeed.bytes, pkg.GarbleActionID, name
 //@ end
 
+//@ ghost lastGarbleSum string
+//@ ghost garbleSumTaken bool
+
+//@ hookset structsalt
+//@ hook before mvdan.cc/garble.addGarbleToHash(in)
+//@   assert("garble-inputs-are-added-to-the-struct-shape-hash", str(in) == strconv.FormatUint(uint64(typeutil_hash(strct)), 32))
+//@ hook after mvdan.cc/garble.addGarbleToHash(in) (out)
+//@   lastGarbleSum = str(out[:])
+//@   garbleSumTaken = true
+//@ end
+
 //@ func hashWithStruct
 //@   property C12 C15 C16
 //@   spec chars.smt2 hashstate.smt2 garbleflags.smt2
-//@   hooks hasher
+//@   hooks hasher structsalt
+//@   ensures @seeded-salt-is-the-struct-shape: len(flagSeed.bytes) > 0 ==> wr[hasher] == spec.HWriteS(spec.HWriteS(spec.HWriteS(spec.HEmpty(), strconv.FormatUint(uint64(typeutil_hash(strct)), 32)), old(str(flagSeed.bytes))), field.Name())
+//@   ensures @unseeded-salt-carries-the-garble-inputs: len(flagSeed.bytes) == 0 ==> wr[hasher] == spec.HWriteS(spec.HWriteS(spec.HWriteS(spec.HEmpty(), lastGarbleSum), old(str(flagSeed.bytes))), field.Name())
 //@   requires field.Name() != "" && sharedCache != nil && len(sharedCache.BinaryContentID) > 0
 //@   fact @init-nameBase64: spec.IsURLNoPad(nameBase64)
-//@   assigns sumBuffer, b64NameBuffer, ghost wr
+//@   assigns sumBuffer, b64NameBuffer, ghost wr, ghost lastGarbleSum, ghost garbleSumTaken
 //@   ensures @length: 6 <= len(r0) && len(r0) <= 12
 //@   ensures @alphabet: forall i int :: 0 <= i && i < len(r0) ==> spec.IdentChar(r0[i])
 //@   ensures @first-not-digit: !spec.IsDigit(r0[0])
@@ -687,6 +704,14 @@ package main
 //@   hooks fwdpos
 //@   skip safety
 //@   unclaimed hashWithPackage/requires because non-emptiness of the key is immaterial here
+//@   ghost pendingOff int = -1
+//@   ghost nOffsets int = 0
+//@   loop 2
+//@     iter if dyntypeis(node, *ast.CallExpr) { pendingOff = fsetFile.Position(node.Pos()).Offset }
+//@     iter if dyntypeis(node, *ast.Ident) { nOffsets = nOffsets + 1 }
+//@     invariant @every-identifier-gets-the-offset-of-the-call-entered-last: nextOffset == pendingOff
+//@     invariant @one-offset-per-identifier: len(origCallOffsets) == nOffsets
+//@     iter if dyntypeis(node, *ast.Ident) { pendingOff = -1 }
 //@ end
 
 // ---- C13/C01: one naming decision, used by the build and by garble map ----
